@@ -9,6 +9,7 @@ import (
 
 	"pipelined.dev/signal"
 	"verif/mc/core"
+	"verif/mc/dyn"
 )
 
 // C16 — bit-depth arithmetic is exact for every depth from 1 to 64.
@@ -36,6 +37,30 @@ var scaleFns = map[string]func(h, l signal.BitDepth) *big.Int{
 	"uintptr": func(h, l signal.BitDepth) *big.Int {
 		return new(big.Int).SetUint64(uint64(signal.Scale[uintptr](h, l)))
 	},
+	// named integer types
+	"MyInt8":  func(h, l signal.BitDepth) *big.Int { return big.NewInt(int64(signal.Scale[dyn.MyInt8](h, l))) },
+	"MyInt16": func(h, l signal.BitDepth) *big.Int { return big.NewInt(int64(signal.Scale[dyn.MyInt16](h, l))) },
+	"MyInt32": func(h, l signal.BitDepth) *big.Int { return big.NewInt(int64(signal.Scale[dyn.MyInt32](h, l))) },
+	"MyInt64": func(h, l signal.BitDepth) *big.Int { return big.NewInt(int64(signal.Scale[dyn.MyInt64](h, l))) },
+	"MyInt":   func(h, l signal.BitDepth) *big.Int { return big.NewInt(int64(signal.Scale[dyn.MyInt](h, l))) },
+	"MyUint8": func(h, l signal.BitDepth) *big.Int {
+		return new(big.Int).SetUint64(uint64(signal.Scale[dyn.MyUint8](h, l)))
+	},
+	"MyUint16": func(h, l signal.BitDepth) *big.Int {
+		return new(big.Int).SetUint64(uint64(signal.Scale[dyn.MyUint16](h, l)))
+	},
+	"MyUint32": func(h, l signal.BitDepth) *big.Int {
+		return new(big.Int).SetUint64(uint64(signal.Scale[dyn.MyUint32](h, l)))
+	},
+	"MyUint64": func(h, l signal.BitDepth) *big.Int {
+		return new(big.Int).SetUint64(uint64(signal.Scale[dyn.MyUint64](h, l)))
+	},
+	"MyUint": func(h, l signal.BitDepth) *big.Int {
+		return new(big.Int).SetUint64(uint64(signal.Scale[dyn.MyUint](h, l)))
+	},
+	"MyUintptr": func(h, l signal.BitDepth) *big.Int {
+		return new(big.Int).SetUint64(uint64(signal.Scale[dyn.MyUintptr](h, l)))
+	},
 }
 
 var scaleTypes = []struct {
@@ -44,6 +69,8 @@ var scaleTypes = []struct {
 }{
 	{"int8", 6}, {"int16", 14}, {"int32", 30}, {"int64", 62}, {"int", 62},
 	{"uint8", 7}, {"uint16", 15}, {"uint32", 31}, {"uint64", 63}, {"uint", 63}, {"uintptr", 63},
+	{"MyInt8", 6}, {"MyInt16", 14}, {"MyInt32", 30}, {"MyInt64", 62}, {"MyInt", 62},
+	{"MyUint8", 7}, {"MyUint16", 15}, {"MyUint32", 31}, {"MyUint64", 63}, {"MyUint", 63}, {"MyUintptr", 63},
 }
 
 func pow2(k int) *big.Int { return new(big.Int).Lsh(big.NewInt(1), uint(k)) }
@@ -66,6 +93,34 @@ func c16Run(cs c16Case) (fs []F) {
 		}
 		if g := new(big.Int).SetUint64(b.MaxUnsignedValue()); g.Cmp(maxU) != 0 {
 			fail("max-unsigned", "MaxUnsignedValue = %v, want %v", g, maxU)
+		}
+	case "max-signed":
+		if g := big.NewInt(b.MaxSignedValue()); g.Cmp(maxS) != 0 {
+			fail("max-signed", "MaxSignedValue = %v, want %v", g, maxS)
+		}
+	case "min-signed":
+		if g := big.NewInt(b.MinSignedValue()); g.Cmp(minS) != 0 {
+			fail("min-signed", "MinSignedValue = %v, want %v", g, minS)
+		}
+	case "max-unsigned":
+		if g := new(big.Int).SetUint64(b.MaxUnsignedValue()); g.Cmp(maxU) != 0 {
+			fail("max-unsigned", "MaxUnsignedValue = %v, want %v", g, maxU)
+		}
+	case "signed1": // one call only
+		want := big.NewInt(cs.Val)
+		if want.Cmp(maxS) > 0 {
+			want = maxS
+		}
+		if g := b.SignedValue(cs.Val); big.NewInt(g).Cmp(want) != 0 {
+			fail("signed-clip", "SignedValue(%d) = %d, want %v", cs.Val, g, want)
+		}
+	case "unsigned1": // one call only
+		want := new(big.Int).SetUint64(cs.UVal)
+		if want.Cmp(maxU) > 0 {
+			want = maxU
+		}
+		if g := b.UnsignedValue(cs.UVal); new(big.Int).SetUint64(g).Cmp(want) != 0 {
+			fail("unsigned-clip", "UnsignedValue(%d) = %d, want %v", cs.UVal, g, want)
 		}
 	case "signed":
 		v := big.NewInt(cs.Val)
@@ -156,6 +211,19 @@ func c16Light(report func(cs c16Case, fs []F)) int64 {
 	return n
 }
 
+// c16First is the case that makes exactly one library call: fn at depth d.
+func c16First(fn string, d int) c16Case {
+	switch fn {
+	case "max-signed", "min-signed", "max-unsigned":
+		return c16Case{Fn: fn, Depth: d}
+	case "signed":
+		return c16Case{Fn: "signed1", Depth: d, Val: 100}
+	case "unsigned":
+		return c16Case{Fn: "unsigned1", Depth: d, UVal: 100}
+	}
+	return c16Case{Fn: "scale", Depth: d, Low: max(1, d-5), Type: "uint64"}
+}
+
 // c16Touch calls every bit-depth function once at depth d (any uint8 value: also outside 1..64).
 func c16Touch(d int) {
 	b := signal.BitDepth(d)
@@ -172,6 +240,30 @@ func init() {
 		Worker: func(c *core.Ctx, arg string) int {
 			// "order:a,b,c": in this fresh process use depths a, b, c first, then check every depth
 			res := &core.WorkerResult{CanaryOK: true}
+			if strings.HasPrefix(arg, "first:") {
+				// "first:<fn>:<depth>": the very first call into the library in this process is that one
+				// function at that depth; its answer is checked, then every depth
+				parts := strings.Split(arg, ":")
+				d, _ := strconv.Atoi(parts[2])
+				cs := c16First(parts[1], d)
+				report := func(cs c16Case, fs []F, what string) {
+					if len(res.Violations) < 5 {
+						raw, _ := json.Marshal(cs)
+						for _, f := range fs {
+							f.Key += "/first-call"
+							f.Msg = fmt.Sprintf("in a fresh process whose first library call is %s at depth %d%s: %s", parts[1], d, what, f.Msg)
+							res.Violations = append(res.Violations, core.WorkerViolation{Case: raw, Failure: f})
+						}
+					}
+				}
+				res.Executions = 1
+				if fs := c16Run(cs); len(fs) > 0 {
+					report(cs, fs, "")
+				}
+				res.Executions += c16Light(func(cs c16Case, fs []F) { report(cs, fs, " (later calls)") })
+				core.EmitWorkerResult(res)
+				return 0
+			}
 			var prefix []int
 			for _, p := range strings.Split(strings.TrimPrefix(arg, "order:"), ",") {
 				if v, err := strconv.Atoi(p); err == nil {
@@ -213,6 +305,12 @@ func init() {
 				}
 			}
 			addJob(0)
+			// every function as the very first library call of a process, at every depth
+			for _, fn := range []string{"max-signed", "min-signed", "max-unsigned", "signed", "unsigned", "scale"} {
+				for d := 1; d <= 64; d++ {
+					jobs = append(jobs, core.WorkerJob{Binary: "mc-shim", ID: "C16", Arg: fmt.Sprintf("first:%s:%d", fn, d), Env: []string{"VERIF_NO_EVIDENCE=1"}})
+				}
+			}
 			coarse := []int{1, 8, 16, 17, 33, 48, 64}
 			if !c.Quick() {
 				coarse = []int{1, 2, 8, 15, 16, 17, 31, 32, 33, 47, 48, 49, 63, 64}
@@ -294,7 +392,7 @@ func init() {
 			c.Sample(c16Case{Fn: "signed", Depth: 64, Val: -1 << 63})
 			c.Sample(c16Case{Fn: "scale", Depth: 64, Low: 1, Type: "uint64"})
 			c.Sample(c16Case{Fn: "bounds", Depth: 63})
-			c.Set("rule", "all 64 depths x (bounds; SignedValue over every int64 within +-3 of 0, +-2^k, +-1.5*2^k and the bounds; UnsignedValue over the unsigned analogue; a lattice of 2^14 values with an odd step across the whole 64-bit range; for depths <= 16 additionally every value in [-2^17, 2^17]) and Scale[T](h,l) for all pairs h>=l and all 11 integer types where 2^(h-l) fits T; oracle in math/big; each (function, depth, argument) enumerated once, all non-trivial; plus the order of first use: fresh processes that first touch one depth outside 1..64 (d+64, d+128, d+192 for every d) or every pair and triple of a coarse set of depths, then check all 64 depths")
+			c.Set("rule", "all 64 depths x (bounds; SignedValue over every int64 within +-3 of 0, +-2^k, +-1.5*2^k and the bounds; UnsignedValue over the unsigned analogue; a lattice of 2^14 values with an odd step across the whole 64-bit range; for depths <= 16 additionally every value in [-2^17, 2^17]) and Scale[T](h,l) for all pairs h>=l and all 11 built-in integer types plus a named type over each of them, where 2^(h-l) fits T; oracle in math/big; each (function, depth, argument) enumerated once, all non-trivial; plus the order of first use: fresh processes that first touch one depth outside 1..64 (d+64, d+128, d+192 for every d) or every pair and triple of a coarse set of depths, then check all 64 depths; and fresh processes whose very first library call is one of MaxSignedValue / MinSignedValue / MaxUnsignedValue / SignedValue / UnsignedValue / Scale at each depth 1..64 (answer checked, then all depths)")
 			c.Assume("64-bit arguments outside the alphabet are not covered")
 		},
 		RunCase: func(c *core.Ctx, raw json.RawMessage) []F { return c16Run(decode[c16Case](raw)) },
